@@ -1,5 +1,6 @@
 import Vuego.Driver.OverlayOp
 import Vuego.Driver.StackOp
+import Vuego.Driver.DomJson
 namespace Vuego.Driver
 open Lean
 
@@ -9,6 +10,8 @@ def handle (j : Json) : Json :=
   | "stackops" => stackOps j
   | "truthy" => truthyOp j
   | "splitpath" => splitPathOp j
+  | "render" => renderOp j
+  | "tokenize" => tokenizeOp j
   | _ => O [("error", Json.str "bad-op")]
 
 def handleLine (line : String) : String :=
